@@ -141,7 +141,11 @@ def gen_case(rng, hook, cat=None):
     if cat == "span":
         # FC09d: a controller is INSIDE shutdown()/stop() while thread 0 stops and restarts the pool; thread 0 joins it right after
         # the restart (it must return on its own: its shutdown number is completed) or only after more work / the next stop
-        ctls.append("ctl " + rng.choice(["sd", "sd", "stop", "d=50 sd"]))
+        ctls.append("ctl " + rng.choice(["sd", "sd", "stop", "d=50 sd", "d=50 sd"]))
+        if rng.chance(1, 3):
+            # no initial worker: after the restart the first worker is spawned by a submission; a shutdown() of the controller that
+            # begins DURING reset()/start() returns at once for the old epoch
+            init, mx = 0, rng.choice([1, 1, 2])
         ops = [o for o in ops if o not in ("stop", "sd")] + ["c=0", rng.choice(["stop", "d=50"]), "stop", "rs"]
         if rng.chance(1, 2):
             ops.append("j")
@@ -417,13 +421,21 @@ def monitor(case, r):
 
     def epoch(x):
         return sum(1 for r0 in restarts if r0 < x)
+    # Epoch of a stop()/shutdown() CALL: the number of restarts that had COMPLETED (code 10: start() has returned) when the call began.
+    # A call that begins while reset()/start() is still running (after `rsbegin`, before code 10) may still find _shutdown set by the
+    # OLD epoch's shutdown and return at once - it says nothing about tasks of the new epoch; stamping it with the old epoch is
+    # false-alarm free (everything of the old epoch had finished before reset() could begin).
+    restarts_done = sorted(q for code, q, _ in m["mlog"] if code == 10)
+
+    def call_epoch(x):
+        return sum(1 for r0 in restarts_done if r0 < x)
     if not detached:
         for code, q, q0 in m["mlog"]:
             if code not in (4, 7, 8):
                 continue
             what = {4: "stop()", 7: "shutdown()", 8: "~ThreadPool"}[code]
             # the epoch of the CALL: a caller that waits for another thread's shutdown may return after the pool was restarted
-            e = epoch(q0)
+            e = call_epoch(q0) if code in (4, 7) else epoch(q0)
             for s in m["subs"]:
                 t = m["tasks"].get(s["id"])
                 if s["res"] == "a" and epoch(s["tick"]) == e and s["tick"] < q and (t is None or t["dt"] < 0 or t["dt"] > q):
